@@ -57,8 +57,8 @@ func sane(w *kit.World) bool {
 		if g.Form == kit.IdInstance && g.Life != kit.LSingleton {
 			return false // a registered value is shared by construction
 		}
-		if w.IsVoid(r) && g.Life != kit.LScoped {
-			return false // initializers are a scoped notion
+		if w.IsVoid(r) && g.Life != kit.LScoped && !(g.Life == kit.LSingleton && vrt.Param("singleton_init", 0) == 1) {
+			return false // initializers are a scoped notion; singleton_init=1 also admits functions without a service result registered as singletons (run once, at Build)
 		}
 		if g.Form == kit.IdAs2 && r > 1 {
 			return false // S2, S3 do not implement I1
